@@ -17,7 +17,7 @@ namespace HapVerif.C01
 open HapVerif.Drv
 
 /-- the revision of /repo the driver mirrors (see `Rev`) -/
-def currentRev : Rev := 1
+def currentRev : Rev := 2
 
 def unq (s : String) : String := if s = "_" then "" else s
 def parseOpt (s : String) : Option String := if s = "-" then none else some (unq s)
